@@ -16,29 +16,6 @@ import (
 	"github.com/lightningnetwork/lnd/lnwire"
 )
 
-// c17AccErr maps the (constant) error strings of acceptChannel to an enum.
-func c17AccErr(s string) string {
-	switch {
-	case s == "":
-		return "none"
-	case strings.HasPrefix(s, "invalid push amount"):
-		return "push"
-	case s == "expected explicit channel negotiation":
-		return "explicit"
-	case s == "expected script enforced channel lease commitment type":
-		return "lease"
-	case s == "expected simple taproot channel commitment type":
-		return "taproot"
-	case s == "internal error":
-		return "internal"
-	case strings.HasPrefix(s, "expected an ") && strings.Contains(s, "channel but received an"):
-		return "announce"
-	case s == "expected zero conf channel":
-		return "zeroconf"
-	}
-	return "other"
-}
-
 type c17Exp struct {
 	Nonce   order.Nonce
 	SelfBal int64
@@ -151,9 +128,10 @@ func (a *c17Acceptor) request(pid [32]byte, pushMsat int64, ct *int, flags uint3
 			return
 		}
 		accept, zc = resp.Accept, resp.ZeroConf
+		// the error TEXT of a rejection is not part of the comparison (it may be
+		// reworded freely); only that a rejection carries one
 		out = fmt.Sprintf("accept=%s zc=%s depth=%d err=%s", c17b(resp.Accept), c17b(resp.ZeroConf),
-			resp.MinAcceptDepth, c17AccErr(resp.Error))
-		a.r.Count("acc/err/" + c17AccErr(resp.Error))
+			resp.MinAcceptDepth, c17b(resp.Error != ""))
 	}()
 	a.r.Emit("C17 "+op, out)
 	a.r.Evaluations++
@@ -182,6 +160,22 @@ func (a *c17Acceptor) request(pid [32]byte, pushMsat int64, ct *int, flags uint3
 		annOK := announced == !exp.Unann
 		zcOK := wantsZC == exp.ZC
 		want = pushOK && ctOK && annOK && zcOK
+		switch {
+		case want:
+			a.r.Count("acc/why/all-as-demanded")
+		case !pushOK:
+			a.r.Count("acc/why/push")
+		case !ctOK && order.ChannelType(exp.ChanTyp) > order.ChannelTypeSimpleTaproot:
+			a.r.Count("acc/why/unknown-bid-type")
+		case !ctOK && ct == nil:
+			a.r.Count("acc/why/implicit-negotiation")
+		case !ctOK:
+			a.r.Count("acc/why/commit-type")
+		case !annOK:
+			a.r.Count("acc/why/announce")
+		default:
+			a.r.Count("acc/why/zeroconf")
+		}
 		why = fmt.Sprintf("registered bid demands push=%d sat chanType=%d unannounced=%v zeroConf=%v; request matches: "+
 			"push=%v commitType=%v announce=%v zeroConf=%v", exp.SelfBal, exp.ChanTyp, exp.Unann, exp.ZC,
 			pushOK, ctOK, annOK, zcOK)
